@@ -9,6 +9,10 @@ QTYPES = {"UB": "UnboundedBlocking", "UD": "UnboundedDropping", "BB": "BoundedBl
 
 def build(qt="UB", cap=65536, qmax=None, hooks=True, asan=False, extra=()):
     qmax = qmax or cap * 4
+    shadow = qt.endswith("S")          # "UBS": registry-concurrency variant with the shadow Spinlock (lock yield points)
+    if shadow:
+        qt = qt[:-1]
+        extra = ["-I", str(vlib.HARNESS / "shadow"), "-DVS_SHADOW_SPINLOCK"] + list(extra)
     flags = ["-fno-access-control", f"-DVQ_TYPE={QTYPES[qt]}", f"-DVQ_CAP={cap}", f"-DVQ_MAX={qmax}"]
     if hooks:
         flags.append("-DQUILL_VERIF")
@@ -16,8 +20,9 @@ def build(qt="UB", cap=65536, qmax=None, hooks=True, asan=False, extra=()):
     if asan:
         base = ["-std=c++17", "-O1", "-DNDEBUG", "-g", "-pthread", "-w", "-fsanitize=address", "-fno-omit-frame-pointer"]
     flags += list(extra)
-    name = f"h_sys_{qt}_{cap}_{qmax}" + ("_h" if hooks else "") + ("_asan" if asan else "")
-    return vlib.build(name, [vlib.HARNESS / "h_sys.cpp"], flags=flags, base=base, libs=["-ldl"])
+    name = f"h_sys_{qt}_{cap}_{qmax}" + ("_h" if hooks else "") + ("_asan" if asan else "") + ("_shadow" if shadow else "")
+    deps = [vlib.HARNESS / "shadow" / "quill" / "core" / "Spinlock.h"] if shadow else []
+    return vlib.build(name, [vlib.HARNESS / "h_sys.cpp"], flags=flags, base=base, libs=["-ldl"], deps=deps)
 
 
 def run(exe, script, timeout=60, keep=None):
